@@ -304,6 +304,12 @@ func (s *Syncer) walkFetch(ctx context.Context, rootCid cid.Cid, sel selector.Se
 }
 
 func (s *Syncer) fetch(ctx context.Context, rsrc string, cb func(io.Reader) error) error {
+	// noPathStatus is non-zero while a request, that got this not-found or
+	// forbidden status from a plain HTTP publisher, is retried without the
+	// IPNI path for legacy publishers. The Syncer only switches to URLs
+	// without the IPNI path when such a retry succeeds, so that an ordinary
+	// not-found response does not break all following requests.
+	var noPathStatus int
 nextURL:
 	fetchURL := s.rootURL.JoinPath(rsrc)
 	var doneRetry bool
@@ -313,7 +319,7 @@ retry:
 		return err
 	}
 
-	// Error already checked in Sync.
+	// Value already checked in Sync.
 	reqType, _ := CidSchemaFromCtx(ctx)
 	if reqType != "" {
 		req.Header.Set(CidSchemaHeader, reqType)
@@ -321,7 +327,7 @@ retry:
 
 	resp, err := s.client.Do(req)
 	if err != nil {
-		if len(s.urls) != 0 {
+		if noPathStatus == 0 && len(s.urls) != 0 {
 			log.Errorw("Fetch request failed, will retry with next address", "err", err)
 			s.rootURL = *s.urls[0]
 			s.urls = s.urls[1:]
@@ -340,33 +346,46 @@ retry:
 	}
 	defer resp.Body.Close()
 
+	if noPathStatus != 0 {
+		if resp.StatusCode == http.StatusOK {
+			// This is a legacy publisher; use URLs without the IPNI path from now on.
+			s.rootURL.Path = strings.TrimSuffix(s.rootURL.Path, strings.Trim(IPNIPath, "/"))
+			s.noPath = true
+			return cb(resp.Body)
+		}
+		// Retrying without the IPNI path did not help. Report the response to
+		// the original request.
+		_, _ = io.Copy(io.Discard, resp.Body)
+		fetchURL = s.rootURL.JoinPath(rsrc)
+		if noPathStatus == http.StatusNotFound {
+			log.Errorw("Block not found from HTTP publisher", "resource", rsrc)
+			return fmt.Errorf("content not found: %w", ipld.ErrNotExists{})
+		}
+		return fmt.Errorf("non success http fetch response at %s: %d", fetchURL.String(), noPathStatus)
+	}
+
 	switch resp.StatusCode {
 	case http.StatusOK:
 		return cb(resp.Body)
-	case http.StatusNotFound:
+	case http.StatusNotFound, http.StatusForbidden:
 		_, _ = io.Copy(io.Discard, resp.Body)
 		if s.plainHTTP && !s.noPath {
 			// Try again with no path for legacy http.
-			log.Warnw("Plain HTTP got not found response, retrying without IPNI path for legacy HTTP")
-			s.rootURL.Path = strings.TrimSuffix(s.rootURL.Path, strings.Trim(IPNIPath, "/"))
-			s.noPath = true
-			goto nextURL
+			log.Warnw("Plain HTTP got not found or forbidden response, retrying without IPNI path for legacy HTTP", "status", resp.StatusCode)
+			noPathStatus = resp.StatusCode
+			noPathURL := s.rootURL
+			noPathURL.Path = strings.TrimSuffix(noPathURL.Path, strings.Trim(IPNIPath, "/"))
+			fetchURL = noPathURL.JoinPath(rsrc)
+			goto retry
 		}
-		log.Errorw("Block not found from HTTP publisher", "resource", rsrc)
-		// Include the string "content not found" so that indexers that have not
-		// upgraded gracefully handle the error case. Because, this string is
-		// being checked already.
-		return fmt.Errorf("content not found: %w", ipld.ErrNotExists{})
-	case http.StatusForbidden:
-		_, _ = io.Copy(io.Discard, resp.Body)
-		if s.plainHTTP && !s.noPath {
-			// Try again with no path for legacy http.
-			log.Warnw("Plain HTTP got forbidden response, retrying without IPNI path for legacy HTTP")
-			s.rootURL.Path = strings.TrimSuffix(s.rootURL.Path, strings.Trim(IPNIPath, "/"))
-			s.noPath = true
-			goto nextURL
+		if resp.StatusCode == http.StatusNotFound {
+			log.Errorw("Block not found from HTTP publisher", "resource", rsrc)
+			// Include the string "content not found" so that indexers that have not
+			// upgraded gracefully handle the error case. Because, this string is
+			// being checked already.
+			return fmt.Errorf("content not found: %w", ipld.ErrNotExists{})
 		}
-		fallthrough
+		return fmt.Errorf("non success http fetch response at %s: %d", fetchURL.String(), resp.StatusCode)
 	default:
 		_, _ = io.Copy(io.Discard, resp.Body)
 		return fmt.Errorf("non success http fetch response at %s: %d", fetchURL.String(), resp.StatusCode)
